@@ -42,6 +42,7 @@ func init() {
 	register("C04", true, checkC04)
 	register("C02", true, checkC02)
 	register("C15", true, checkC15)
+	register("C03", true, checkC03)
 	register("ES", false, checkES)
 	register("IX", true, checkIXdebug)
 }
